@@ -700,6 +700,8 @@ impl Model {
             let _ = self.term.present();
             #[cfg(feature = "verif")]
             crate::verif::sched::log(format!("loop.end {}", self.verif_snapshot(&env)));
+            #[cfg(feature = "verif")]
+            crate::verif::sched::point("loop.iter_end");
         }
     }
 
